@@ -53,6 +53,15 @@ def run(ck):
         ck.oblige("readers racing the receiver under ThreadSanitizer (harness build)", False, str(e)[:300])
     finally:
         vlib.CURRENT_EXTS = ()
+    # exactly one consumer: the library itself never takes a message out of a user queue (generated count, C06_user_queues_not_consumed_internally)
+    try:
+        import gen_dispatch
+        cons = gen_dispatch.internal_user_queue_consumers(vlib.REPO)
+    except Exception as e_:
+        cons = [("?", 0, "translator failed: %s" % e_)]
+    ck.oblige("no library function calls the public readers or pops a user queue", not cons, "; ".join("%s:%d %s" % c for c in cons[:3]))
+    if cons: ck.broken.append({"kind": "generated-fact", "name": "C06_user_queues_not_consumed_internally", "detail": ["%s:%d %s" % c for c in cons],
+                               "meaning": "a queued user message can now be taken (and freed) by the library itself: which consumer gets it depends on timing, not on type and content"})
     exe = vlib.build_harness(); md = vlib.build_model_driver(cdir, "_C06")
     txt = open(os.path.join(cdir, "DispatchTab.v")).read()
     def lst(name): return [int(x) for x in re.search(r'Definition %s : list N := \[(.*?)\]\.' % name, txt).group(1).split(";") if x.strip()]
